@@ -569,5 +569,9 @@ def run(tier="quick", root="/repo", evidence_dir=None, quiet=False):
     repo = get_repo(root)
     for rule in (rule_r1, rule_r2, rule_r3, rule_r4, rule_r5):
         rep.attempt(rule, rep, repo)
+    # R6: per-atom sequences are addressed in the index space of the atoms (no permutation applied twice,
+    # no counter of a selection used on the full list)
+    from gridlint import e9
+    rep.attempt(e9.rule_index_spaces, rep, repo, ("molgrid",), "R6.index-space", 8)
     rep.extra["source_digest"] = repo.digest(["molgrid", "atomgrid"])
     return rep.finish(evidence_dir=evidence_dir, quiet=quiet)
